@@ -848,10 +848,34 @@ def acute_cone(name):
 
             deg, k = name[8:].split("x")
             W = ConeOrder3DIceCream(float(deg), int(k)).ordering_cone.W
+        elif name.startswith("rays"):
+            # 2-D cone spanned by the rays at the two angles (degrees), inward unit normals as rows: its axis is
+            # NOT the diagonal (e.g. rays60_150 → u* = (−0.26, 0.97))
+            lo, hi = (np.radians(float(x)) for x in name[4:].split("_"))
+            W = np.array([[-np.sin(lo), np.cos(lo)], [np.sin(hi), -np.cos(hi)]])
+        elif name.startswith("pyr"):
+            # 3-D cone with k facets arranged around an off-diagonal axis: "pyr<k>_<phi>_<a0>_<a1>_<a2>"
+            parts = name[3:].split("_")
+            k, phi = int(parts[0]), np.radians(float(parts[1]))
+            a = np.array([float(x) for x in parts[2:5]])
+            a = a / np.linalg.norm(a)
+            b1 = np.cross(a, [0.0, 0.0, 1.0])
+            b1 = b1 / np.linalg.norm(b1)
+            b2 = np.cross(a, b1)
+            ang = 2 * np.pi * np.arange(k) / k
+            W = np.array([np.sin(phi) * a + np.cos(phi) * (np.cos(t) * b1 + np.sin(t) * b2) for t in ang])
+        elif name in OFFAXIS_INT:
+            W = np.array(OFFAXIS_INT[name], dtype=float)
         else:
             W = np.array(EXACT_CONES[name][0], dtype=float)
         _cone_cache[name] = [[float(x) for x in r] for r in np.asarray(W, dtype=float)]
     return _cone_cache[name]
+
+
+# integer-row cones whose axis is off the diagonal
+OFFAXIS_INT = {"offaxis2a": [[-2, 1], [1, 2]], "offaxis2b": [[-1, 3], [3, 1]], "offaxis2c": [[1, -3], [1, 2]]}
+OFFAXIS_CONES2 = ["rays60_150", "rays100_170", "rays-20_40", "rays30_100", "offaxis2a", "offaxis2b", "offaxis2c"]
+OFFAXIS_CONES3 = ["pyr4_40_-1_2_2", "pyr5_35_2_-1_2", "pyr3_40_2_2_-1"]
 
 
 def box_vertices(lo, hi):
@@ -920,7 +944,8 @@ def corner_pair(rng, W, s, want_pess=False, tries=400):
     return None
 
 
-CORNER_CONES_SQUARE = ["theta45", "theta30", "theta60", "acute2", "skew2", "acute3"]
+CORNER_CONES_SQUARE = ["theta45", "theta30", "theta60", "acute2", "skew2", "acute3", "rays60_150", "rays-20_40",
+                       "offaxis2a", "offaxis2c", "pyr3_40_2_2_-1"]
 CORNER_CONES_ANY = CORNER_CONES_SQUARE + ["threefacet2", "icecream30x4", "icecream20x6"]
 
 
